@@ -24,9 +24,16 @@ def register(cls):
 class S:
     """Facade handed to contracts: symbolic constructors + logical combinators."""
 
-    def __init__(self, ctx: Ctx, interp=None):
+    def __init__(self, ctx: Ctx, interp=None, at_call_site=False):
         self.ctx = ctx
         self.it = interp
+        self.at_call_site = at_call_site
+
+    @property
+    def body_ghosts(self):
+        """Ghost functions of the primitives executed by the body under verification (empty when
+        the contract is being used at a call site: those ghosts belong to the caller)."""
+        return {} if self.at_call_site else self.ctx.ghosts
 
     # --- logic
     And = staticmethod(T.And)
@@ -167,6 +174,8 @@ class Contract:
         for p, v in zip(params, pos):
             a[p] = v
         a.update(kw)
+        if fi.kind in ("method", "property") and self_val is not None:
+            a["__self__"] = self_val
         nd = len(node.args.defaults)
         for i, p in enumerate(params):
             if p not in a:
@@ -178,7 +187,7 @@ class Contract:
 
     def apply(self, interp, pos, kw, self_val=None, cls_val=None, constructing=False):
         ctx = interp.ctx
-        s = S(ctx, interp)
+        s = S(ctx, interp, at_call_site=True)
         a = self.bind(interp, pos, kw, self_val, cls_val)
         # ill-formed inputs raise
         for label, g in self.raises_when(s, a):
